@@ -51,11 +51,14 @@ func TestC19(t *testing.T) {
 	}
 	var after []st
 	perSc := map[string]int{} // closure starts kept per scenario (a single cap would be used up by the first scenario)
+	seenSc := map[string]int{}
 	k := 0
 	runWorld(t, run, []scOpt{s2, s3, s3m, s3again}, []func(*w.MonCtx){w.MonC19}, 0, func(sc *w.Scenario, s *w.State, d int) {
 		if s.Mem["lastcmd"] != "" {
 			k++
-			if h.Thorough() || k%4 == 0 {
+			seenSc[sc.Name]++
+			// every state of the first 5000 of a scenario (small scenarios are covered completely), then every 4th
+			if h.Thorough() || seenSc[sc.Name] <= 5000 || k%4 == 0 {
 				if perSc[sc.Name] < 50000 {
 					perSc[sc.Name]++
 					after = append(after, st{sc, s})
